@@ -122,6 +122,11 @@ class ExprMixin:
                     return V(CLS, m.classes[name])
                 if name in m.imports:
                     return self.resolve_dotted(m.imports[name])
+                gv = getattr(self.reg, 'global_values', {})
+                if f'{m.relpath}:{name}' in gv and isinstance(gv[f'{m.relpath}:{name}'], (int, str, bool)):
+                    self.assumptions_used[f'fact:{m.relpath}:{name}'] = \
+                        f'module global {m.relpath}:{name} = {gv[f"{m.relpath}:{name}"]!r} (read from the real module this run)'
+                    return self.const(gv[f'{m.relpath}:{name}'])
                 if name in m.globals:
                     g = m.globals[name]
                     try:
@@ -386,8 +391,10 @@ class ExprMixin:
         if isinstance(op, (ast.In, ast.NotIn)):
             c = self.contains(b, a, st, exits, e)
             return c if isinstance(op, ast.In) else z3.Not(c)
-        if isinstance(a.ty, TOpt) or isinstance(b.ty, TOpt):
-            raise Unsupported('ordering on Optional value')
+        if isinstance(a.ty, TOpt):
+            a = self.coerce(a, a.ty.inner, st)      # code: the path must prove it is not None; specs: guarded by the author
+        if isinstance(b.ty, TOpt):
+            b = self.coerce(b, b.ty.inner, st)
         if a.ty is INT and b.ty is INT:
             return {ast.Lt: a.t < b.t, ast.LtE: a.t <= b.t, ast.Gt: a.t > b.t, ast.GtE: a.t >= b.t}[type(op)]
         if a.ty is STR and b.ty is STR:
@@ -607,9 +614,13 @@ class ExprMixin:
             k = self.coerce(idx, ty.k)
             cell = z3.Select(base.t, k.t)
             if ty.total:
-                if not isinstance(ty.v, TSeq):
-                    raise Unsupported('defaultdict of a non-list default')
-                return V(ty.v, z3.If(ty.vopt.is_some(cell), ty.vopt.val(cell), z3.Empty(ty.v.sort())))
+                if isinstance(ty.v, TSeq):
+                    dflt = z3.Empty(ty.v.sort())
+                elif isinstance(ty.v, TSet):
+                    dflt = z3.K(ty.v.elem.sort(), z3.BoolVal(False))
+                else:
+                    raise Unsupported('defaultdict of a non-list/set default')
+                return V(ty.v, z3.If(ty.vopt.is_some(cell), ty.vopt.val(cell), dflt))
             if not self.raise_if(st, ty.vopt.is_none(cell), 'KeyError', exits, line, 'missing key'):
                 return None
             return V(ty.v, ty.vopt.val(cell))
